@@ -434,9 +434,33 @@ def LookupResH.view (h : Heap) : LookupResH → LookupRes
   | .err => .err
   | .val t v => .val t (v.view h)
 
-/-- `X_Lookup` (kinds other than concat) -/
+/-- the loop of a concat `X_Lookup`:
+      `for … { i = radius.Bytes(attr); value = append(value, i...) }`
+    `radius.Bytes` allocates a copy `i` each round; `append(value, i...)` writes into `value`'s own
+    buffer.  (Go's `append` extends in place within capacity and otherwise moves the contents to a
+    larger new buffer; either way the bytes live in a buffer allocated by this call.  The mirror keeps
+    ONE buffer and extends it in place — the choice under which a stray alias would be visible.) -/
+def concatLoopH : List Slice → Slice → M Slice
+  | [], value => pure value
+  | a :: rest, value => do
+    let i ← bytesH a
+    let iv ← readS i
+    let value ← appendS value iv
+    concatLoopH rest value
+
+/-- `X_Lookup`.  Concat template: `var value []byte` starts nil, the first `append` allocates —
+    modelled as a new empty buffer that the loop extends; no occurrence ⇒ `ErrNoAttribute`.
+    Every other kind: first occurrence, then the decode body. -/
 def hLookupH (H : Hash) (d : Desc) (p : HPacket) (auth : Bytes) : M LookupResH := do
   let raws ← rawSlicesH d p
+  if d.kind = .concat then
+    match raws with
+    | [] => pure .noAttr
+    | _ => do
+      let value ← copyNew []
+      let value ← concatLoopH raws value
+      pure (.val 0 (.bytes value))
+  else
   match raws.head? with
   | none => pure .noAttr
   | some a => do
